@@ -4,11 +4,14 @@
 From XV Require Import Prelude Script GenTemplates.
 Open Scope Z_scope.
 
-Lemma bridge_select : forall sc md bids nres missing B,
-  gen_select sc md bids nres missing B = select sc md bids nres missing B.
+(* [a] is the batch_ids argument as the caller spells it (absent / one int / a sequence);
+   norm_ids reads the int spelling as the one-element list *)
+Lemma bridge_select : forall sc md a nres missing B,
+  gen_select sc md a nres missing B = select sc md (norm_ids a) nres missing B.
 Proof.
-  intros sc md bids nres missing B.
-  destruct sc, md, bids as [l|]; unfold gen_select, select; cbn [opt_is_some negb req_ids];
+  intros sc md a nres missing B.
+  destruct sc, md, a as [|z|l]; unfold gen_select, select;
+    cbn [arg_is_some arg_is_int arg_singleton arg_ids norm_ids negb];
     try (destruct (nres =? 0)); cbn [sched_eqb andb]; try reflexivity;
     match goal with |- context [ids_len ?e =? 1] => destruct (ids_len e =? 1) end; reflexivity.
 Qed.
